@@ -732,6 +732,25 @@ func c06Rebinds(c *Ctx) {
 		reach := blockReach(fn.Blocks[0], isEv)
 		bypass := reach[ex.Block()] && !isEv(ex.Block())
 		r.Check("R06.3", FuncName(fn), fmt.Sprintf("Execute #%d is reached only after the template's functions were rebound", nx), ex.Pos(), !bypass && len(ev) > 0, "a path reaches Execute with the functions of an earlier render")
+		// the template executed belongs to this wrapper (a field of the receiver, or made during this call): a
+		// template shared between wrappers has its functions re-pointed by whichever wrapper rendered last
+		own := true
+		for o := range eff.originOf(fn, callCommon(ex).Args[0]) {
+			if o.Kind == orgGlobal {
+				own = false
+			}
+		}
+		// (also through the field it is kept in: what is stored there must not come from package-level state)
+		if tf := c.FieldOpt(c.Named("html", "HTMLTable"), "template"); tf != nil {
+			for _, fs := range c.StoresTo(tf) {
+				for o := range eff.originOf(fs.Fn, fs.St.Val) {
+					if o.Kind == orgGlobal {
+						own = false
+					}
+				}
+			}
+		}
+		r.Check("R06.3", FuncName(fn), fmt.Sprintf("Execute #%d runs the wrapper's own template, not one shared at package level", nx), ex.Pos(), own, "the template is reachable from a package-level variable: another wrapper's render rebinds its functions while this one executes")
 	})
 	r.Floor("R06.3", "template executions in RenderTo", nx, 1)
 }
